@@ -11,6 +11,7 @@ import Dlismodel.Model.Iflr
 import Dlismodel.Model.Api
 import Dlismodel.Model.Output
 import Dlismodel.Model.Index
+import Dlismodel.Model.Hc
 namespace Dlis
 
 def hexDigit (n : Nat) : Char := if n < 10 then Char.ofNat (48 + n) else Char.ofNat (87 + n)
@@ -371,6 +372,15 @@ def handle (ws : List String) : String :=
       let dir := match a.direction with | none => "none" | some true => "inc" | some false => "dec"
       s!"ok min={showOptInt a.imin} max={showOptInt a.imax} spacing={sp} direction={dir}"
     | none => "bad"
+  -- high-compatibility context: initial flag, then e(nter) l(eave) o(ther); reply: flag after every op
+  | ["hc", f0, ops] =>
+    let go := ops.toList.foldl (fun (acc : HcState × List Bool) c =>
+      let op := if c == 'e' then HcOp.enter else if c == 'l' then HcOp.leave else HcOp.other
+      let s' := hcStep acc.1 op
+      (s', acc.2 ++ [s'.flag])) ({ flag := f0 == "1", saved := [] }, [])
+    "ok " ++ String.ofList (go.2.map fun b => if b then '1' else '0') ++ s!" depth={go.1.saved.length}"
+  | ["hcstr", s] => match parseCps s with
+    | some s => if hcString s then "1" else "0" | none => "bad"
   | "hist" :: n :: ops =>
     match n.toNat?, ops.mapM parseOp with
     | some n, some ops => "ok " ++ showWorld (run (World.init n) ops)
